@@ -216,4 +216,11 @@ def run_episode(env, td_in, chooser_names, gen, max_steps: int, scripted=None, s
                 ep.reward_repeat = env.get_reward(same, ep.actions_tensor().clone())
             except Exception:
                 ep.reward_repeat = None
+            # the evaluators of rl4co.tasks.eval re-score returned actions on the RESET state of the instance (so that augmented
+            # rollouts are costed on the original coordinates): recorded here, judged by the caller for envs whose reward is a
+            # function of (instance, actions)
+            try:
+                ep.reward_on_reset = env.get_reward(ep.td0.clone(), ep.actions_tensor().clone())
+            except Exception:
+                ep.reward_on_reset = None
     return ep
